@@ -13,6 +13,8 @@ import (
 	"github.com/jonboulle/clockwork"
 	"github.com/rs/zerolog/log"
 	"google.golang.org/protobuf/proto"
+
+	"github.com/avos-io/goat/internal/verifhook"
 )
 
 // OnConnect can be called by the GoatOverHttp to indicate that a new client has
@@ -159,9 +161,12 @@ func (goh *GoatOverHttp) ServeHTTP(w http.ResponseWriter, r *http.Request) {
 		go goh.onConnect(source, conn)
 	}
 
+	verifhook.Yield("http.beforeDeliver", rpc.GetId())
 	select {
 	case conn.readCh <- &rpc:
+		verifhook.Emit("http.deliver", rpc.GetId(), source)
 	case <-conn.done:
+		verifhook.Emit("http.deliver.closed", rpc.GetId(), source)
 		http.Error(w, "connection closed", http.StatusServiceUnavailable)
 	case <-r.Context().Done():
 		http.Error(w, "request cancelled", http.StatusServiceUnavailable)
@@ -188,6 +193,7 @@ func (goh *GoatOverHttp) connectionCleaner() {
 				}
 			}
 			goh.conns.Unlock()
+			verifhook.Emit("http.clean.done", 0, "")
 		}
 	}
 }
@@ -224,6 +230,7 @@ func (goh *GoatOverHttp) unregister(id string) {
 func (goh *GoatOverHttp) unregisterLocked(id string) {
 	if conn, ok := goh.conns.value[id]; ok {
 		close(conn.done)
+		verifhook.Emit("http.unregister", 0, id)
 	}
 
 	delete(goh.conns.value, id)
